@@ -1,10 +1,15 @@
 #!/bin/sh
-# usage: tools/seedrun.sh <seed-dir-name e.g. C04-2> [property-id]  -- run a check against a seeded change in a scratch worktree
-S=$1; P=${2:-${S%%-*}}; WT=/tmp/seedrun/$S
+# usage: tools/seedrun.sh <seed-dir-name e.g. C04-2> [property-id] [extra ./check args]
+# Runs a check against a seeded change in a fresh scratch worktree of /repo's HEAD (outside /repo and /verif),
+# which is removed again afterwards together with the outputs of the run.
+S=$1; P=${2:-${S%%-*}}; shift; [ $# -gt 0 ] && shift
+WT=/tmp/seedrun/$S.$$
 mkdir -p /tmp/seedrun
-[ -d "$WT" ] || git -C /repo worktree add -q --detach "$WT" HEAD
-git -C "$WT" checkout -q -- . && git -C "$WT" apply /verif/seeded/$S/patch.diff || { echo "apply failed"; exit 9; }
-cd /verif && VERIF_REPO=$WT VERIF_OUT=/tmp/seedrun/out-$S VERIF_EVIDENCE=/tmp/seedrun/ev-$S ./check $P; RC=$?
-git -C "$WT" checkout -q -- .
+git -C /repo worktree add -q --detach "$WT" HEAD || { echo "worktree failed"; exit 9; }
+cleanup() { git -C /repo worktree remove --force "$WT" 2>/dev/null; rm -rf "/tmp/seedrun/out-$S.$$" "/tmp/seedrun/ev-$S.$$"; }
+trap cleanup EXIT INT TERM
+git -C "$WT" apply /verif/seeded/$S/patch.diff || { echo "apply failed"; exit 9; }
+cd /verif && VERIF_REPO=$WT VERIF_OUT=/tmp/seedrun/out-$S.$$ VERIF_EVIDENCE=/tmp/seedrun/ev-$S.$$ ./check $P "$@"; RC=$?
+if [ -n "$SEEDRUN_KEEP" ]; then mkdir -p "$SEEDRUN_KEEP"; cp -r /tmp/seedrun/out-$S.$$/$P/replay "$SEEDRUN_KEEP/" 2>/dev/null; fi
 echo "seed $S property $P exit=$RC"
 exit $RC
